@@ -182,12 +182,25 @@ Lemma tie_withdraw_run :
   withdraw [] p_neofs_maxBalanceAmount = VFault.
 Proof. repeat split; vm_compute; reflexivity. Qed.
 
-(* NOT TIED: the factor 100000000 of [amount = amount * 100000000] in Withdraw
-   (contracts/neofs/contract.go:309, a literal inside the function) is not
-   extracted into Gen/Params.v; [neofs_withdraw] has it inline.  (The equal
-   factor of [max_balance_amount_gas] IS tied, by tie_max_balance_amount_gas.) *)
-(* NOT TIED: [delete_suffix] = "delete" (contracts/neofs/contract.go:181,
-   []byte("delete") inside InnerRingCandidateRemove) is not extracted. *)
+(** * Literals written inline in Go function bodies (Params: p_<pkg>_<func>_{int,str}lits,
+      the literals of the function body in source order) *)
+
+(** Withdraw: [amount = amount * 100000000] (contracts/neofs/contract.go, the second
+    integer literal of the function): the amount of the Withdraw notification. *)
+Definition withdraw_events (x : Z) : list Z :=
+  flat_map (fun e => match e with EWithdraw _ a _ => [a] | _ => [] end)
+    (snd (wstep (env0 []) (winit [] false PROXY [N1]
+                   [(bytes_of_string p_neofs_withdrawFeeConfigKey, int_to_bytes 0)]) (ctx0 [], OWithdraw AK x))).
+Lemma tie_withdraw_factor :
+  withdraw_events 7 = [7 * nth 1 p_neofs_Withdraw_intlits 0] /\
+  p_neofs_maxBalanceAmountGAS = p_neofs_maxBalanceAmount * nth 1 p_neofs_Withdraw_intlits 0.
+Proof. split; vm_compute; reflexivity. Qed.
+
+(** InnerRingCandidateRemove: [append(key, []byte("delete")...)] *)
+Lemma tie_delete_suffix :
+  delete_suffix = bytes_of_string (nth 0 p_neofs_InnerRingCandidateRemove_strlits "").
+Proof. vm_compute. reflexivity. Qed.
+
 (* NOT TIED: the event names "Deposit" / "Withdraw" / "Cheque" / "Bind" /
    "Unbind" / "AlphabetUpdate" / "SetConfig" (contracts/neofs/contract.go:260,
    :312, :358, :377, :396, :450, :495, literals of runtime.Notify calls) are not
